@@ -1,6 +1,8 @@
 prop("C12", pkg="c12",
      rule="rapid draws a message schema (1-4 messages forming a DAG, 0-7 fields each: bool/int/int32/int64/uint/uint32/uint64/float32/float64/string/[]byte, "
-          "repeated, map<K,V> with integral/bool/string keys, nested message by value or pointer incl. single-field 'inlined' shapes; untagged or fully "
+          "repeated, map<K,V> with integral/bool/string keys, nested message by value or pointer incl. single-field 'inlined' shapes; in 2/3 of the schemas message slots (singular, pointer, repeated element, map value) may also be of two "
+          "struct-kind self-encoding types, pschema.PMsg implementing proto.Message and pschema.CMsg implementing the gogo-style Size/MarshalTo/Unmarshal interface, both "
+          "writing/merging the ordinary message {uint64 x=1; string s=2}, which the reference sees as a plain nested message; untagged or fully "
           "tagged with numbers weighted on 15/16, 2047/2048, 65535 and zigzag/fixed options) which is materialised both as a reflect.StructOf type with "
           "protobuf struct tags and as a proto3 FileDescriptorProto (packed=false, map_entry) checked field by field against proto.TypeOf; 2-8 (thorough: 6-24) value recipes per "
           "schema. Each value gives one encode evaluation (reference decodes seg.Marshal(v) or Marshal(&v): no error, no unknown fields, equal fields, floats by "
@@ -19,11 +21,13 @@ prop("C12", pkg="c12",
                 "disagreement outside the classes listed in known_findings.json: of the 8 genuine defects this check found, 7 are repaired in /repo (status fixed; their "
                 "witnesses run as regression cases and their shapes are generated again) and 1 (non-nil empty map written as an empty entry) is still known and excluded narrowly.",
      level_note="Trusted base: protobuf-go v1.26.0 as the definition of the wire format and of 'decodes to the same values', plus harness/pschema (schema -> Go type / "
-                "descriptor / value conversions, self-checked by pschema tests). Not covered: recursive message types, pointers to scalars, [N]byte, custom "
-                "Message implementers, packed encodings, groups, sfixed32/64. Shapes of a class are avoided only while that class has status known "
+                "descriptor / value conversions, self-checked by pschema tests). Not covered: recursive message types, pointers to scalars, [N]byte, RawMessage and "
+                "non-struct-kind Message/custom implementers (the struct-kind ones are covered through PMsg/CMsg), packed encodings, groups, sfixed32/64. Shapes of a class are avoided only while that class has status known "
                 "(currently none of the avoid-by-construction classes is active).",
      assumptions=["protobuf-go v1.26.0 decodes/encodes the standard wire format correctly (reference)",
                   "a nil *struct field and a pointer to an all-zero struct are treated as equal (nil == empty); presence of empty sub-messages is C03's subject",
                   "float32 NaN payloads are generated with the quiet bit set (the reference stores float32 as float64, which quiets signalling NaNs)",
                   "strings are valid UTF-8 (proto3 string fields; the reference rejects other bytes)",
-                  "proto.TypeOf reports uint32/uint64 for fixed32/fixed64-tagged fields (it cannot express fixed); the cross-check tolerates exactly this"])
+                  "proto.TypeOf reports uint32/uint64 for fixed32/fixed64-tagged fields (it cannot express fixed); the cross-check tolerates exactly this",
+                  "self-encoding types are opaque to proto.TypeOf (a proto.Message implementer is a field-less message named bytes, a custom type is bytes); the descriptor "
+                  "declares the nested message they actually write (same wire type), and their Unmarshal merges like a generated nested-message Unmarshal"])
